@@ -6,7 +6,7 @@ CONSTANTS
   N2 = 7
   A3 = {"0x", "1", "a", ".", "p", "-", "_"}
   N3 = 6
-  A4 = {"inf", "inity", "nan", "NaN", "INF", "+", "-", "i", "y", "1"}
+  A4 = {"inf", "inity", "nan", "NaN", "INF", "+", "-", "i", "y", "1", ":", "/"}
   N4 = 4
   A5 = {"0", "1", "9", "+", "-", "_"}
   N5 = 7
